@@ -278,7 +278,8 @@ pub fn estimate_preflate_strategy(info: &PreflateStreamInfo) -> PreflateStrategy
     if info.count_stored_blocks == info.count_blocks {
         return PreflateStrategy::Store;
     }
-    if info.count_huff_blocks == info.count_blocks {
+    // stored blocks contain no tokens, so they say nothing about whether matches were used
+    if info.count_huff_blocks + info.count_stored_blocks == info.count_blocks {
         return PreflateStrategy::HuffOnly;
     }
     if info.count_rle_blocks == info.count_blocks {
